@@ -745,7 +745,8 @@ def path_slice_cases():
 
         # the block a frontier state carries: the timestamp is the symbol of the previous depth (constraints on it bound every later
         # timestamp), the other fields are what the cheatcodes left there (terms or wrapped values)
-        block = NS(basefee=hb_.HalmosBitVec(0), chainid=z3.BitVecVal(31337, 256), coinbase=z3.BitVecVal(0, 160), difficulty=hb_.HalmosBitVec(0), gaslimit=z3.BitVecVal(2**63 - 1, 256), number=hb_.HalmosBitVec(num), timestamp=z3.ZeroExt(192, ts))
+        # (vm.roll / vm.fee ... with a concrete argument leave a plain python int in the block: chainid here)
+        block = NS(basefee=hb_.HalmosBitVec(0), chainid=31337, coinbase=z3.BitVecVal(0, 160), difficulty=hb_.HalmosBitVec(0), gaslimit=z3.BitVecVal(2**63 - 1, 256), number=hb_.HalmosBitVec(num), timestamp=z3.ZeroExt(192, ts))
         a1, a2, a3 = z3.BitVecVal(0xA1, 160), z3.BitVecVal(0xA2, 160), z3.BitVecVal(0xA3, 160)
         arr = z3.Store(z3.K(z3.BitVecSort(160), z3.BitVecVal(0, 256)), a1, b)
 
@@ -768,7 +769,12 @@ def path_slice_cases():
         for this in (a1, a2, a3):
             got.clear()
             ex = NS(balance=arr, code=code, storage=storage, transient_storage={a1: NS(_mapping={(0, 0, 0): t1})}, path=path, this=lambda this=this: this, block=block)
-            interp.call(hs.Exec.__dict__["path_slice"], [ex], {})
+            try:
+                interp.call(hs.Exec.__dict__["path_slice"], [ex], {})
+            except AttributeError as e:  # (what the real get_var_set raises for a value that is not a z3 term)
+                ctx.oblige("path_slice copes with every value a block field can hold (terms, wrapped values, plain ints left by the block cheatcodes)", z3.BoolVal(False), info={"exc": str(e)[:120]})
+                return
+            ctx.oblige("path_slice copes with every value a block field can hold (terms, wrapped values, plain ints left by the block cheatcodes)", z3.BoolVal(True))
             want = {b, c1, c2, s1, s2, s3}
             if len(got) == 1:
                 ctx.oblige("path_slice: the symbolic block values (timestamp, number, ...) are state variables too: the next transaction starts from this block", z3.BoolVal({ts, num} <= set(got[0])), info={"missing": [str(v) for v in {ts, num} - set(got[0])]})
@@ -778,6 +784,9 @@ def path_slice_cases():
 
     def replay_both(r):
         a = replay_script("timestamp_constraints_merged.py", "f() requires block.timestamp > 100, g() requires <= 100, same storage effect; the invariant breaks only after g()")(r)
+        if a.get("reproduced"):
+            return a
+        a = replay_script("concrete_warp_in_setup.py", "setUp() { vm.warp(1000); } and an invariant target that calls vm.roll with a concrete argument")(r)
         if a.get("reproduced"):
             return a
         return replay_script("slice_other_account.py", "two target contracts, A reads B's storage: call sequences B.set(x); A.sync()")(r)
@@ -798,7 +807,9 @@ def build_cases(tier="quick"):
 
 
 def grounds():
-    return [Ground(f"{PROP}/__main__.resolve_target_contracts", ground_target_contracts, sources=("halmos.__main__:resolve_target_contracts",)), Ground(f"{PROP}/__main__.resolve_target_selectors", ground_target_selectors, sources=("halmos.__main__:resolve_target_selectors",)), Ground(f"{PROP}/__main__.abi_decode_FuzzSelector_array", ground_fuzz_selector_decoding, sources=("halmos.__main__:abi_decode_FuzzSelector_array",))]
+    from contracts.common import ground_script
+
+    return [Ground(f"{PROP}/cheatcodes.snapshot_state#block", ground_script("block_values_in_state_id.py", "a handler bump(n){vm.roll(n)} and f(){require(block.number >= 2); flag = 1}, depth 2", "a post-state that differs from its pre-state only in a block value is a new state (it is not dropped as visited)"), sources=("halmos.cheatcodes:snapshot_state",)), Ground(f"{PROP}/__main__.resolve_target_contracts", ground_target_contracts, sources=("halmos.__main__:resolve_target_contracts",)), Ground(f"{PROP}/__main__.resolve_target_selectors", ground_target_selectors, sources=("halmos.__main__:resolve_target_selectors",)), Ground(f"{PROP}/__main__.abi_decode_FuzzSelector_array", ground_fuzz_selector_decoding, sources=("halmos.__main__:abi_decode_FuzzSelector_array",))]
 
 
 ASSUMPTIONS = [
